@@ -1398,7 +1398,7 @@ def pred_c17_all(line, st):
 PROPS["C17"] = dict(
     module="TmcgProps.C17",
     areas=[("coin", {"quick": 300, "thorough": 3000}, [], "san"),
-           ("jl", {"quick": 24, "thorough": 60}, ["--par", "4"], "san")],
+           ("jl", {"quick": 26, "thorough": 60}, ["--par", "4"], "san")],
     obligations=[("Tmcg.C17.flip2_agree", "full"), ("Tmcg.C17.commit_before_reveal", "full"),
                  ("Tmcg.C17.commitment_hides", "full"), ("Tmcg.C17.accept_iff", "full"),
                  ("Tmcg.C17.bad_opening_rejected", "full"), ("Tmcg.C17.commitment_binds", "full"),
